@@ -202,6 +202,45 @@ fn reference_dumps(cfg: &IndexCfg, network: Network, blocks: &[Block], dir: &Pat
   Ok(())
 }
 
+/// The same history (grow to a1, update, grow to a2, update, switch, update)
+/// with no fault injected: `Ok(None)` if every update succeeded, else the
+/// first error text.
+fn uninterrupted_outcome(cfg: &IndexCfg, blocks_a: &[Block], a1: u32, a2: u32, depth: u32, b_new: &[Block], dir: &Path) -> Result<Option<String>, String> {
+  let _ = std::fs::remove_dir_all(dir);
+  std::fs::create_dir_all(dir).map_err(|e| e.to_string())?;
+  let mut node = Node::new(Network::Regtest);
+  let index = cfg.open(&node, dir).map_err(|e| format!("{e:#}"))?;
+  let mut fed = 0usize;
+  let mut outcome = None;
+  for upto in [a1 as usize, a2 as usize, usize::MAX] {
+    if upto == usize::MAX {
+      node.pop_blocks(depth);
+      for b in b_new {
+        node.push_existing(b);
+      }
+    } else {
+      for b in &blocks_a[fed..upto] {
+        node.push_existing(b);
+      }
+      fed = upto;
+    }
+    match crate::report::catch(|| index.update()) {
+      Ok(Ok(())) => {}
+      Ok(Err(e)) => {
+        outcome = Some(format!("{e:#}"));
+        break;
+      }
+      Err(p) => {
+        outcome = Some(format!("panic: {p}"));
+        break;
+      }
+    }
+  }
+  drop(index);
+  let _ = std::fs::remove_dir_all(dir);
+  Ok(outcome)
+}
+
 fn gen_plan(rng: &mut Rng) -> Plan {
   match rng.below(10) {
     0 => Plan::None,
@@ -304,6 +343,21 @@ pub fn run(ctx: &Ctx, rep: &mut Report) {
           WorkerEnd::Fuse => {
             // the reorg livelock of C14: not this property's business
             rep.count("skipped_reorg_livelock");
+            aborted_case = true;
+          }
+          WorkerEnd::Err(e) if what == "switch" && e.contains("unrecoverable reorg") => {
+            // Reported (not silent) failure to undo the reorg: C14's business,
+            // unless only the crashed-and-resumed index fails. Run the same
+            // history without any fault and compare the outcome.
+            match uninterrupted_outcome(&cfg, &chain_a.blocks, a1, a2, depth, &b_new, &dir.join("uninterrupted")) {
+              Ok(Some(err)) if err.contains("unrecoverable reorg") => rep.count("histories_unrecoverable_also_without_crash"),
+              Ok(other) => rep.violation(
+                "C13/unrecoverable-reorg-only-after-crash",
+                format!("plan {} after {deaths} crash(es): worker reported {e}; the same history without crashes ended with {other:?}", plan.label()),
+                rp.clone(),
+              ),
+              Err(e2) => rep.inconclusive(format!("uninterrupted comparison run failed: {e2}")),
+            }
             aborted_case = true;
           }
           WorkerEnd::Err(e) => {
